@@ -1,4 +1,4 @@
-/- REGENERATED on every run by `corr C08.tables` from the code in /work/c08/repo. Do not edit. -/
+/- REGENERATED on every run by `corr C08.tables` from the code in /repo. Do not edit. -/
 namespace Generated.C08
 /-- (current, requested, accepted) as answered by the running `Lifecycler.changeState` -/
 def changeStateTable : List (Nat × Nat × Bool) :=
